@@ -68,21 +68,48 @@ def run(ctx):
         lop = lock_operand_local(S, stmt, "lock")
         ll = op_local(lop)
         root = trace_moves(ba, ll)
-        ts = LockTS(prog, S, [root], preconds=pre)
-        st = ts.state_at(bb)
-        ok = st is not None and st <= {"O"}
-        ctx.ob("R6.1", "%s|%s" % (S.key, name), ok, where=ctx.where(S, bb),
-               detail="lock `%s` state at construction: %s" % (S.local_name(root), sorted(st) if st else "untracked (not created by new_lock in this body)"))
+        newlocks = [d for d in ba.defs.get(root, []) if d[0] == "call" and call_matches(d[2], r"state::ProcessState::new_lock")]
+        # the lock may instead be the result of an awaited nested coroutine (the acquisition loop as an `async fn`
+        # awaited in place): the typestate is then decided in that coroutine up to its Ok returns and, from the await's
+        # Ready edge on, in this body (LockHandoff)
+        ho = LockHandoff.find(prog, S, root, pre) if not newlocks else None
+        if ho is None:
+            ts = LockTS(prog, S, [root], preconds=pre)
+            st = ts.state_at(bb)
+            ok = st is not None and st <= {"O"}
+            ctx.ob("R6.1", "%s|%s" % (S.key, name), ok, where=ctx.where(S, bb),
+                   detail="lock `%s` state at construction: %s" % (S.local_name(root), sorted(st) if st else "untracked (not created by new_lock in this body)"))
+        else:
+            ts = ho
+            chg = ho.state_changes_before(bb)
+            ok = ho.ret_state is not None and ho.ret_state <= {"O"} and not chg
+            ctx.ob("R6.1", "%s|%s" % (S.key, name), ok, where=ctx.where(S, bb),
+                   detail="lock handed over by the awaited coroutine %s in state %s on every Ok return; %s" % (
+                       ho.C.key, sorted(ho.ret_state) if ho.ret_state else "untracked",
+                       "no Lock method changes it between the await and the construction" if not chg else
+                       "changed before the construction by %s" % [common.short(callee_paths(S.blocks[j]["term"])[0]) for j in chg]))
 
         # ---- R6.2 value flow
-        newlocks = [d for d in ba.defs.get(root, []) if d[0] == "call" and call_matches(d[2], r"state::ProcessState::new_lock")]
-        if not ctx.ob("R6.2", "%s|%s|lock-created-by-new_lock" % (S.key, name), len(newlocks) == 1, where=ctx.where(S, bb),
-                      detail="%d new_lock definitions of the lock local" % len(newlocks)):
+        n_new = len(newlocks) if ho is None else len(ho.newlocks)
+        if not ctx.ob("R6.2", "%s|%s|lock-created-by-new_lock" % (S.key, name), n_new == 1, where=ctx.where(S, bb),
+                      detail="%d new_lock definitions of the lock local%s" % (n_new, "" if ho is None else " (in the awaited coroutine %s)" % ho.C.key)):
             continue
-        nl_bb, nl_t = newlocks[0][1], newlocks[0][2]
-        id_op = nl_t["args"][1]
+        if ho is None:
+            nl_bb, nl_t = newlocks[0][1], newlocks[0][2]
+            id_op = nl_t["args"][1]
+            extra_arith = []
+        else:
+            # the id operand of the coroutine's new_lock is one of its captured values: continue with the operand
+            # captured for it at the construction site in this body
+            nl_bb = ho.poll_bb
+            id_op, extra_arith = ho.id_operand_in_parent()
+            if not ctx.ob("R6.2", "%s|%s|id-captured-from-scheduler" % (S.key, name), id_op is not None, where=ctx.where(S, nl_bb),
+                          detail="the lock id used in %s is a value captured from the scheduler" % ho.C.key if id_op is not None else
+                          "the lock id used in %s is not (only) a value captured from the scheduler" % ho.C.key):
+                continue
         # backward direct slice of the id operand
         slice_locals, origins, arith = backward_direct(S, op_local(id_op))
+        arith = list(extra_arith) + list(arith)
         id_calls = [o for o in origins if o[0] == "call" and call_matches(o[2], r"state::File::id")]
         other = [o for o in origins if not (o[0] == "call" and call_matches(o[2], r"state::File::id|alloc::collections::vec_deque::VecDeque::pop_front"))]
         ctx.ob("R6.2", "%s|%s|no-offset" % (S.key, name), not arith, where=ctx.where(S, nl_bb),
@@ -122,6 +149,10 @@ def run(ctx):
             if ts.is_recv(S.blocks[cbb]["term"]) and ba.dominates(t_t, bb):
                 if owned_entry is None or ba.dominates(owned_entry, t_t):
                     owned_entry = t_t
+        if owned_entry is None and ho is not None and ho.ret_state is not None and ho.ret_state <= {"O"} and ho.ready is not None and ba.dominates(ho.ready, bb):
+            # ownership is established inside the awaited coroutine (its is_owned() loop): in this body the lock is owned
+            # from the completion of that await on
+            owned_entry = ho.ready
         if ctx.ob("R6.3", "%s|%s|anchors" % (S.key, name), bool(starts) and owned_entry is not None, where=ctx.where(S, bb),
                   detail="is_owned() true edge dominating the construction and the following BuildJob::start call found" if starts and owned_entry is not None
                   else "no is_owned() test dominates the construction / no start call follows"):
@@ -183,7 +214,7 @@ def run(ctx):
     inh = prog.one(r"env::Env::inherit")
     iba = BA.of(inh)
     clears = [i for (b, i) in env_setters(prog, "REDO_UNLOCKED") if b.key == inh.key and env_set_value(b, i) == ""]
-    oks = [i for i, _, st in anchors.agg_sites(inh, r"core::result::Result") if st["rv"]["variant"] == "Ok"]
+    oks = ok_result_blocks(inh)
     p = iba.path([0], oks, avoid=frozenset(clears), incl=True) if oks else [0]
     ctx.ob("R6.6", "Env::inherit|REDO_UNLOCKED-not-inherited", bool(clears) and p is None, where=inh.span,
            detail="REDO_UNLOCKED is reset before every Ok return of Env::inherit" if clears and p is None else "REDO_UNLOCKED leaks to subprocesses: every nested redo-ifchange would skip locking")
@@ -199,7 +230,7 @@ def run(ctx):
     lm = prog.one(r"state::LockManager::open")
     lba = BA.of(lm)
     coe = [i for i in lba.calls(r"helpers::close_on_exec") if S is not None and op_const(lm.blocks[i]["term"]["args"][1]) and op_const(lm.blocks[i]["term"]["args"][1]).get("bool") is True]
-    oks = [i for i, _, s in anchors.agg_sites(lm, r"core::result::Result") if s["rv"]["variant"] == "Ok"]
+    oks = ok_result_blocks(lm)
     p = lba.path([0], oks, avoid=frozenset(coe), incl=True) if oks else [0]
     ctx.ob("R6.7", "LockManager::open|close-on-exec", bool(coe) and p is None, where=lm.span,
            detail="close_on_exec(fd, true) precedes every Ok return" if coe and p is None else "lock fd may be inherited across exec")
@@ -216,17 +247,155 @@ def run(ctx):
         dba = BA.of(d)
         un = dba.calls(r"state::Lock::unlock")
         ok = False
+        # the ownership test: a read of the Lock's ownership field (the field(s) of Lock that `is_owned` reports,
+        # whatever their name and type), or a call of `is_owned` on the value being dropped
+        own = ownership_fields(prog)
+        tests = []
         for sw in sorted(dba.live):
             bs = dba.bool_switch(sw)
             if not bs:
                 continue
             t_t, f_t, (kind, info) = bs
-            if kind == "place" and place_fields(info)[-1:] == ["state::Lock.owned"]:
+            if kind == "place" and place_fields(info)[-1:] and place_fields(info)[-1] in own:
+                tests.append((sw, t_t, f_t))
+        for (sw, t_t, f_t, cbb) in common.switches_on_call_value(d, r"state::Lock::is_owned"):
+            if 1 in dba.ref_chain(op_local(d.blocks[cbb]["term"]["args"][0])) or dba.base_local_of_ref(op_local(d.blocks[cbb]["term"]["args"][0])) == 1:
+                tests.append((sw, t_t, f_t))
+        for (sw, t_t, f_t) in tests:
+            if t_t != f_t:
                 if un and all(dba.edge_dominates((sw, t_t), u) for u in un):
                     # and the owned side cannot reach return without unlocking
                     p = dba.path([t_t], dba.returns(), avoid=frozenset(un), incl=True)
-                    ok = p is None
+                    ok = ok or p is None
         ctx.ob("R6.8", "Lock-drop-unlocks-iff-owned", ok, where=d.span, detail="drop: unlock() exactly on the owned side" if ok else "drop does not unlock exactly when owned")
+
+
+class LockHandoff:
+    """A Lock that body S receives as the Ok value of an awaited coroutine C built in S (`let lock = self.acquire(..)
+    .await?`): what the typestate needs on both sides of the hand-over.
+
+      C            the coroutine body;  poll_bb / ready: the await's poll block and Ready block in S
+      newlocks     the new_lock calls of C whose result is the returned lock
+      ret_state    typestate of that lock at the Ok returns of C (LockTS inside C), None if untracked
+      aliases      locals of S holding the received lock (whole-local moves from the await's payload)
+    """
+
+    @classmethod
+    def find(cls, prog, S, root, pre):
+        ba = BA.of(S)
+        orgs = common.value_origins(S, root)
+        polls = [(bb, t) for (k, bb, t) in orgs if k == "callpay" and t.get("macro") == "desugar:Await"]
+        if not orgs or len(polls) != len(orgs) or len({bb for bb, _ in polls}) != 1:
+            return None
+        poll_bb, t = polls[0]
+        C = prog.bodies.get(strip_generics(t.get("resolved") or t.get("callee") or ""))
+        if C is None or not C.coroutine or len(closure_sites(S, C.key)) != 1:
+            return None
+        self = cls()
+        self.prog, self.S, self.C, self.poll_bb = prog, S, C, poll_bb
+        self.ready = next((r for (p_, y, r, c) in ba.awaits() if p_ == poll_bb), None)
+        # the lock C returns: origins of the Ok payload of its return place (error exits build the value by from_residual)
+        corg = [(k, b_, t_) for (k, b_, t_) in common.value_origins(C, 0, pend=(("Ok", "0"),))
+                if not (k == "callpay" and call_matches(t_, r"(<.* as )?core::ops::try_trait::FromResidual(<.*>)?>?::from_residual"))]
+        self.newlocks = [(b_, t_) for (k, b_, t_) in corg if k == "call" and call_matches(t_, r"state::ProcessState::new_lock")]
+        self.other_origins = [(k, b_) for (k, b_, t_) in corg if not (k == "call" and call_matches(t_, r"state::ProcessState::new_lock"))]
+        self.ret_state = None
+        if self.newlocks and not self.other_origins:
+            cts = LockTS(prog, C, [t_["dest"]["l"] for (_, t_) in self.newlocks], preconds=pre)
+            oks = common.ok_returns(C)
+            sts = [cts.state_at(b_) for b_ in oks]
+            if oks and all(x is not None for x in sts):
+                self.ret_state = set().union(*sts)
+        # aliases in S: forward over whole-local moves from the payload local
+        al = {root}
+        changed = True
+        while changed:
+            changed = False
+            for blk in S.blocks:
+                for st in blk["stmts"]:
+                    if st["s"] == "assign" and not st["place"]["p"] and st["rv"]["k"] == "use":
+                        p = op_place(st["rv"]["op"])
+                        if p is not None and not p["p"] and p["l"] in al and st["place"]["l"] not in al:
+                            al.add(st["place"]["l"])
+                            changed = True
+        self.aliases = al
+        return self
+
+    def is_recv(self, t):
+        """Does call `t` take the handed-over lock as its receiver?"""
+        if not t["args"]:
+            return False
+        l = op_local(t["args"][0])
+        if l is None:
+            return False
+        return l in self.aliases or any(x in self.aliases for x in BA.of(self.S).ref_chain(l))
+
+    def state_changes_before(self, bb):
+        """Blocks of S that call a state-changing Lock method on the handed-over lock on a path from the await's
+        completion to block bb that does not pass the await again."""
+        ba = BA.of(self.S)
+        out = []
+        if self.ready is None:
+            return [self.poll_bb]
+        for j in ba.calls(r"state::Lock::[a-z_]+"):
+            t = self.S.blocks[j]["term"]
+            if call_matches(t, r"state::Lock::is_owned") or not self.is_recv(t):
+                continue
+            # (a path that passes the await again holds the *next* lock handed over, not this one)
+            if (j == self.ready or ba.path([self.ready], [j], avoid=frozenset([self.poll_bb]), incl=True)) and ba.path([j], [bb], avoid=frozenset([self.poll_bb])):
+                out.append(j)
+        return out
+
+    def id_operand_in_parent(self):
+        """(operand in S captured for the id argument of C's new_lock, arithmetic met inside C), or (None, [])
+        when that argument is not a direct copy of exactly one captured variable."""
+        C, S = self.C, self.S
+        cba = BA.of(C)
+        (nb, nt) = self.newlocks[0]
+        sl, org, ar = backward_direct(C, op_local(nt["args"][1]))
+        ups = set()
+        for x in sl:
+            for d in cba.defs.get(x, []):
+                if d[0] == "stmt":
+                    for p in rvalue_places(d[3]):
+                        u = upvar_index(p)
+                        if u:
+                            ups.add(u[0])
+        if org or len(ups) != 1:
+            return None, []
+        ops = closure_sites(S, C.key)[0][4]
+        u = next(iter(ups))
+        return (ops[u] if 0 <= u < len(ops) and op_local(ops[u]) is not None else None), list(ar)
+
+
+def ok_result_blocks(body):
+    """Blocks that build the `Ok(..)` value the function *returns*: Result::Ok aggregates that reach the return place
+    (directly or through whole-local moves). An `Ok(..)` built for some other Result - the value of an inner block, of
+    a helper that canon.py spliced in and whose result is then unwrapped with `?` - is not a return of this function."""
+    live = BA.of(body).live
+    out = {bb for (k, bb, rv) in common.value_origins(body, 0)
+           if k == "agg" and rv.get("adt") == "core::result::Result" and rv.get("variant") == "Ok" and bb in live and not body.is_cleanup(bb)}
+    return sorted(out)
+
+
+def ownership_fields(prog):
+    """The field(s) of state::Lock that hold its ownership state, by role: the Lock fields that `Lock::is_owned`
+    reads (today the bool `owned`; equally an enum-valued field compared against its `held` variant). Falls back to
+    the historical field name when there is no such accessor."""
+    out = set()
+    for b in prog.find(r"state::Lock::is_owned"):
+        for blk in b.blocks:
+            for s in blk["stmts"]:
+                if s["s"] == "assign":
+                    for p in rvalue_places(s["rv"]):
+                        out.update(f for f in place_fields(p) if f.startswith("state::Lock."))
+            t = blk["term"]
+            ops = t["args"] if t["t"] == "call" else ([t["discr"]] if t["t"] == "switch" else [])
+            for o in ops:
+                p = op_place(o)
+                if p is not None:
+                    out.update(f for f in place_fields(p) if f.startswith("state::Lock."))
+    return out or {"state::Lock.owned"}
 
 
 def future_owns_lock(ctx, rid):
@@ -328,7 +497,7 @@ def check_lock_drops(ctx, prog, role, co):
     if not ctx.ob("R6.4", "%s|captures-lock" % role, bool(cap), where=co.span,
                   detail="job coroutine owns a Lock upvar (%s)" % [c[0] for c in cap] if cap else "job coroutine does not own the Lock: it is released when the enclosing function returns, i.e. while the job still runs"):
         return
-    job_awaits = [(p, y, r, c) for (p, y, r, c) in ba.awaits() if c and c.endswith("jobserver::Job as core::future::future::Future>::poll")]
+    job_awaits = [(p, y, r, c) for (p, y, r, c) in ba.awaits() if (c and c.endswith("jobserver::Job as core::future::future::Future>::poll")) or _awaits_captured_job(prog, co, p)]
     if not ctx.ob("R6.4", "%s|awaits-job" % role, len(job_awaits) == 1, where=co.span, detail="%d awaits of jobserver::Job" % len(job_awaits)):
         return
     ready = job_awaits[0][2]
@@ -375,17 +544,59 @@ def check_lock_drops(ctx, prog, role, co):
                witness={"path": p[:15] if p else None})
 
 
+def _awaits_captured_job(prog, co, poll_bb):
+    """The `.await` polled at block poll_bb of coroutine `co` waits for a jobserver::Job by *value*: the polled future
+    goes back (moves, borrows, Pin::new_unchecked, into_future) to captured variable(s) for which every construction
+    site of `co` captures a jobserver::Job. (An `async fn f(job: impl Future<Output = i32>, ..)` polls through the
+    type parameter, so the callee path does not name the Job.)"""
+    cba = BA.of(co)
+    t = co.blocks[poll_bb]["term"]
+    if not t["args"] or op_local(t["args"][0]) is None:
+        return False
+    sl, org, ar = backward_direct(co, op_local(t["args"][0]))
+    if org or ar:
+        return False
+    ups = set()
+    for x in sl:
+        for d in cba.defs.get(x, []):
+            if d[0] == "stmt":
+                for p in rvalue_places(d[3]):
+                    u = upvar_index(p)
+                    if u:
+                        ups.add(u[0])
+    if not ups:
+        return False
+    sites = [(x, st) for x in prog.bodies.values() for st in closure_sites(x, co.key)]
+    if not sites:
+        return False
+    for (parent, (bb, j, dest, k, ops)) in sites:
+        for u in ups:
+            l = op_local(ops[u]) if 0 <= u < len(ops) else None
+            if l is None:
+                return False
+            if parent.locals[l] == "jobserver::Job":
+                continue
+            # the operand keeps the spliced helper's parameter type (`impl Future`): follow the value
+            psl, porg, par = backward_direct(parent, l)
+            if (par or not porg or not any(parent.locals[x] == "jobserver::Job" for x in psl)
+                    or not all(o[0] == "call" and "jobserver::Job" in parent.locals[o[2]["dest"]["l"]] for o in porg)):
+                return False
+    return True
+
+
 def closure_upvar_types(prog, cl):
     """[(name, type)] of the upvars of closure/coroutine body `cl`, from its construction site."""
     parent = prog.bodies.get(strip_generics(cl.parent or ""))
     out = []
-    if parent is None:
-        return out
-    for (bb, j, dest, k, ops) in closure_sites(parent, cl.key):
-        for n, o in enumerate(ops):
-            l = op_local(o)
-            ty = parent.locals[l] if l is not None else (op_const(o) or {}).get("ty", "?")
-            out.append((parent.local_name(l) if l is not None else "const", ty))
+    # the construction site is in the lexical parent, or - when the parent is an `async fn` / helper that canon.py
+    # spliced into its callers - in whichever bodies build the closure now
+    makers = [parent] if parent is not None else [x for x in prog.bodies.values() if closure_sites(x, cl.key)]
+    for parent in makers:
+        for (bb, j, dest, k, ops) in closure_sites(parent, cl.key):
+            for n, o in enumerate(ops):
+                l = op_local(o)
+                ty = parent.locals[l] if l is not None else (op_const(o) or {}).get("ty", "?")
+                out.append((parent.local_name(l) if l is not None else "const", ty))
     return out
 
 
@@ -427,8 +638,13 @@ def primary_target_rule(ctx, rid):
     prog = ctx.prog
     U = prog.one(r"@bin::unlocked::run")
     ba = BA.of(U)
-    setters = [i for b, i in env_setters(prog, "REDO_UNLOCKED") if b.key == U.key]
-    if not ctx.ob(rid, "unlocked::run|sets-REDO_UNLOCKED", len(setters) == 1, where=U.span, detail="%d Command::env(REDO_UNLOCKED) sites" % len(setters)):
+    # sites that can execute (core.FAX): when the two Command chains are one helper taking `who owns the lock` as an
+    # enum / bool and that helper was spliced into both call sites, each copy has the `.env(REDO_UNLOCKED)` call but
+    # only the copy whose argument is the `caller owns it` constant can reach it
+    from core import FAX
+    feasible = FAX.of(U).live
+    setters = [i for b, i in env_setters(prog, "REDO_UNLOCKED") if b.key == U.key and i in feasible]
+    if not ctx.ob(rid, "unlocked::run|sets-REDO_UNLOCKED", len(setters) == 1, where=U.span, detail="%d reachable Command::env(REDO_UNLOCKED) sites" % len(setters)):
         return
     env_bb = setters[0]
     # the Command value: trace receiver back to Command::new
